@@ -144,6 +144,7 @@ func init() {
 			{Name: "refuse", Run: c04Refuse},
 			{Name: "long", TShards: 4, Run: c04Long},
 			{Name: "sizes", TShards: 6, Run: c04Sizes},
+			{Name: "prefixes", Run: prefixUnit("bed", false, 0)},
 		},
 	})
 }
